@@ -34,6 +34,15 @@ impl WorldC {
             obs.log.bytes(&bytes);
             self.ledger.push((bytes, from, to));
             let ix = self.ledger.len() - 1;
+            let m = match self.slot_of_addr(from) {
+                Some(j) if to == self.server_addr => {
+                    let connected = self.slots[j].client.as_ref().map(|(c, _)| c.is_connected()).unwrap_or(false);
+                    self.slots[j].emitted_n += 1;
+                    (Some(j), self.slots[j].epoch, self.slots[j].emitted_n, connected, 0)
+                }
+                _ => (None, 0, 0, false, 0),
+            };
+            self.meta.push(m);
             if from == self.server_addr {
                 if let Some(j) = self.slot_of_addr(to) {
                     self.slots[j].to_client.push(ix);
@@ -90,6 +99,14 @@ impl WorldC {
         obs.sim_ms += dt;
         let d = Duration::from_millis(dt);
         self.sv_ms += dt;
+        // C20 / C18 through the full stack: a client whose fresh session datagram is already in the server's socket when the
+        // update starts is not timed out by that update (nothing else may end its session either unless somebody decided to)
+        let recv_fault = self.net.0.borrow().recv_err.contains_key(&self.server_addr);
+        let waiting: Vec<(bool, u32)> = self
+            .slots
+            .iter()
+            .map(|s| (s.fresh_waiting && !recv_fault && self.transport.client_addr(s.id).is_some() && s.decided_side.is_none() && !s.tainted, s.server_disc_events))
+            .collect();
         self.server.update(d);
         let r = self.transport.update(d, &mut self.server);
         obs.count("op.tick_server");
@@ -104,6 +121,16 @@ impl WorldC {
             }
         }
         self.pump_events(obs);
+        for (j, (was_waiting, disc_before)) in waiting.iter().enumerate() {
+            if *was_waiting && r.is_ok() {
+                obs.count("oracle.C20.waiting_datagram_keeps_session");
+                let s = &self.slots[j];
+                if s.server_disc_events > *disc_before && !s.app_disconnected_client && !s.app_disconnected_server && !s.tainted {
+                    obs.violate("C20", "healthy-session-ended-with-its-datagram-waiting", "server", format!("slot {} id {}: the update of {} ms ended the session although a fresh datagram was in the socket", j, s.id, dt));
+                }
+            }
+            self.slots[j].fresh_waiting = false;
+        }
         if r.is_ok() {
             self.check_lockstep(obs);
         } else {
@@ -351,6 +378,16 @@ impl WorldC {
         let (bytes, from, to) = self.ledger[ix].clone();
         obs.count("op.deliver");
         obs.abs.u64(0x900 + dir as u64);
+        // a session datagram of the current client object, newer than anything handed over before and never handed over itself:
+        // the server will accept it whenever it reads its socket
+        let (mslot, mepoch, n, connected, times) = self.meta[ix];
+        if dir == 0 && mslot == Some(j) && mepoch == self.slots[j].epoch && connected && times == 0 && n > self.slots[j].newest_handed {
+            self.slots[j].fresh_waiting = true;
+        }
+        if mslot == Some(j) && mepoch == self.slots[j].epoch {
+            self.slots[j].newest_handed = self.slots[j].newest_handed.max(n);
+        }
+        self.meta[ix].4 += 1;
         self.enqueue(to, bytes, from);
     }
 
@@ -532,7 +569,9 @@ impl WorldC {
                 if self.ledger.is_empty() {
                     return;
                 }
-                let (bytes, from, to) = self.ledger[op.a as usize % self.ledger.len()].clone();
+                let rix = op.a as usize % self.ledger.len();
+                let (bytes, from, to) = self.ledger[rix].clone();
+                self.meta[rix].4 += 1;
                 obs.count("fault.replay");
                 let from = if op.b % 4 == 3 { self.slots[op.c as usize % ns].addr } else { from };
                 self.enqueue(to, bytes, from);
